@@ -200,7 +200,9 @@ pub fn cfg_strategy() -> impl Strategy<Value = DevCfg> {
         let front = if small { [FrontKind::NbBuf64, FrontKind::AsyncBuf255, FrontKind::AsyncBuf64, FrontKind::NbBuf255][(ri + b) % 4] } else { [FrontKind::Nb, FrontKind::Async, FrontKind::AsyncClassC][fk] };
         // ... and one in eight the crate's default downlink queue of depth 1 instead of the harness's 4
         let q1 = (ri + fk + b) % 8 == 5;
-        let front = if q1 { [FrontKind::NbQ1, FrontKind::AsyncQ1, FrontKind::AsyncSeeded][(ri + b) % 3] } else { front };
+        // (FrontKind::AsyncSeeded is not drawn here: the crate's own PRNG has no draw budget, so a selection that
+        // never terminates would hang the check instead of being reported; C20 uses it for restored devices)
+        let front = if q1 { [FrontKind::NbQ1, FrontKind::AsyncQ1][(ri + b) % 2] } else { front };
         DevCfg { region, join_bias: if region.fixed() { bias } else { None }, front, board: if small || q1 { (14, 0) } else { BOARDS[b] } }
     })
 }
